@@ -55,7 +55,7 @@ func ruleWSTransportOneMessage(c *Ctx) {
 			if cc.IsInvoke() {
 				nm = cc.Method.Name()
 			} else if cc.StaticCallee() != nil && cc.StaticCallee().Signature.Recv() != nil {
-				nm = cc.StaticCallee().Name()
+				nm = baseFuncName(cc.StaticCallee())
 			}
 			return nm == "NextWriter" || nm == "WriteMessage" || nm == "WritePreparedMessage" || nm == "WriteJSON"
 		}
